@@ -486,4 +486,102 @@ theorem yrecv_partial {cfg : Cfg} {n : Net} {v : View} (h : RInv cfg n v) (hok :
         have : cvis cfg v.tr now = cvis cfg v.tr (n.bus.seen.getD (oth v.x) 0) := by omega
         rw [this]; exact hdl
 
+/-- Phase `gap`, the other station (still supervising) is polled while the request is incomplete for it. -/
+theorem stepY_gap_partial {cfg : Cfg} {n : Net} {v : View} (h : RInv cfg n v) (hok : cfg.Ok) (g : Nat)
+    (hph : v.ph = .gap g) (hidle : v.idle = false) (now : Int) (e : EvOk cfg n v (oth v.x) now)
+    (hpart : cvis cfg v.tr now < v.tr.bytes.length) : StepOut cfg n v (oth v.x) now := by
+  have hP := h.ph
+  unfold PhaseOk at hP
+  rw [hph] at hP
+  obtain ⟨hs1, hb, hgy, hg, hst, hlx, hq, hsx, hY⟩ := hP
+  rw [hidle] at hY
+  simp only [Bool.false_eq_true, if_false] at hY
+  obtain ⟨inc, c, ly', hd, hp, htx, h1, h2, h3, hY'⟩ := yrecv_partial h hok hs1 hY
+    (by intro m hm; rw [hb] at hm ⊢; rw [statusRequestBytes_length] at hm; exact receiveAll_statusRequest_prefix g v.ax m hm)
+    now e hpart
+  obtain ⟨n', hn', hinv'⟩ := rinv_quiet_y h now e.tl (Int.le_of_lt e.own) inc c v.idle ly' hd hp htx h1 h2 h3
+    (by
+      unfold PhaseOk
+      have e1 : (v.setY c v.idle ly' now).ph = .gap g := hph
+      rw [e1]
+      simp only
+      have e2 : (v.setY c v.idle ly' now).idle = false := hidle
+      rw [e2]
+      simp only [Bool.false_eq_true, if_false]
+      exact ⟨hs1, hb, hgy, hg, hst, hlx, hq, hsx, hY'⟩)
+  exact ⟨n', _, inc, c, hn', hinv', rfl, fun j _ => rfl, .inl ⟨htx, rfl, rfl⟩⟩
+
+/-- Phase `pass`, the successor is polled while the token is incomplete for it. -/
+theorem stepY_pass_partial {cfg : Cfg} {n : Net} {v : View} (h : RInv cfg n v) (hok : cfg.Ok)
+    (hph : v.ph = .pass) (now : Int) (e : EvOk cfg n v (oth v.x) now)
+    (hpart : cvis cfg v.tr now < v.tr.bytes.length) : StepOut cfg n v (oth v.x) now := by
+  have hP := h.ph
+  unfold PhaseOk at hP
+  rw [hph] at hP
+  obtain ⟨hs1, hb, hst, hlx, hq, hY⟩ := hP
+  obtain ⟨inc, c, ly', hd, hp, htx, h1, h2, h3, hY'⟩ := yrecv_partial h hok hs1 hY
+    (by intro m hm; rw [hb] at hm ⊢; exact receiveAll_token_prefix _ _ m hm)
+    now e hpart
+  obtain ⟨n', hn', hinv'⟩ := rinv_quiet_y h now e.tl (Int.le_of_lt e.own) inc c v.idle ly' hd hp htx h1 h2 h3
+    (by
+      unfold PhaseOk
+      have e1 : (v.setY c v.idle ly' now).ph = .pass := hph
+      rw [e1]
+      simp only
+      exact ⟨hs1, hb, hst, hlx, hq, hY'⟩)
+  exact ⟨n', _, inc, c, hn', hinv', rfl, fun j _ => rfl, .inl ⟨htx, rfl, rfl⟩⟩
+
+theorem u8_toNat (a : Nat) (h : a < 256) : (UInt8.ofNat a).toNat = a := by
+  simp [Nat.mod_eq_of_lt h]
+
+/-- Phase `gap`, the poll at which the other station (still supervising) has the complete request in its
+buffer: it is not addressed to it; supervision ends, the station is idle. -/
+theorem stepY_gap_complete {cfg : Cfg} {n : Net} {v : View} (h : RInv cfg n v) (hok : cfg.Ok) (g : Nat)
+    (hph : v.ph = .gap g) (hidle : v.idle = false) (now : Int) (e : EvOk cfg n v (oth v.x) now)
+    (hfull : cvis cfg v.tr now = v.tr.bytes.length) : StepOut cfg n v (oth v.x) now := by
+  have hP := h.ph
+  unfold PhaseOk at hP
+  rw [hph] at hP
+  obtain ⟨hs1, hb, hgy, hg, hst, hlx, hq, hsx, hY⟩ := hP
+  rw [hidle] at hY
+  simp only [Bool.false_eq_true, if_false] at hY
+  obtain ⟨hrx, hpb, hlt, hyl, hlc, hmode⟩ := hY
+  rw [hidle] at hmode
+  simp only [Bool.false_eq_true, if_false] at hmode
+  obtain ⟨hyst, hdl⟩ := hmode
+  have hown := e.own
+  have htl := e.tl
+  have htlt := h.tlt
+  have hne := oth_ne v.x h.x2
+  have hlen : v.tr.bytes.length = 6 := by rw [hb]; exact statusRequestBytes_length _ _
+  obtain ⟨inc, hd, hcat⟩ := h.bus.deliver_recv hok.rate (oth v.x) (oth_lt _) now (by rw [hs1]; exact hne) (Int.le_of_lt e.own)
+  have hphy : n.bus.transmitting (oth v.x) now = false :=
+    Bus.transmitting_old n.bus (oth v.x) now v.old v.tr h.bus.txs (by rw [hs1]; exact hne) h.bus.oldEnd
+      (Int.le_trans h.tlt e.tl)
+  have hlyn : v.ly < now := by rcases hlc with h1 | h1 <;> omega
+  have hrx' : v.sy.rx ++ inc = statusRequestBytes g v.ax := by
+    rw [hrx, hcat, hfull, ← hb, List.take_length]
+  have hax := h.okx.lta
+  have hp := check_poll_hears_request v.sy.s now (statusRequestBytes g v.ax) .first v.ly
+    (fdlStatusRequestHeader (UInt8.ofNat g) (UInt8.ofNat v.ax)) .inactive h.oky.son hyst hyl hlyn
+    (.inl (by rw [statusRequestBytes_length, hpb]; omega))
+    (receiveAll_statusRequest g v.ax (by omega) (by omega)) rfl
+    (by
+      show (UInt8.ofNat g).toNat ≠ _
+      rw [u8_toNat g (by omega), h.oky.addr]; exact hgy)
+  have harr : v.tr.start + ((cfg.ce 5 : Nat) : Int) ≤ now := by
+    have := (cvis_spec cfg v.tr now 5 (by rw [hlen]; decide)).1 (by rw [hfull, hlen]; decide)
+    exact this
+  obtain ⟨n', hn', hinv'⟩ := rinv_quiet_y h now e.tl (Int.le_of_lt e.own) inc _ true now hd
+    (by rw [hphy, hrx']; exact hp) rfl rfl rfl h.oky.son
+    (by
+      unfold PhaseOk
+      have e1 : ∀ c, (v.setY c true now now).ph = .gap g := fun _ => hph
+      rw [e1]
+      simp only
+      unfold View.setY upSt
+      simp only [if_true]
+      exact ⟨hs1, hb, hgy, hg, hst, hlx, hq, hsx, ⟨none, 0, rfl⟩, trivial, trivial, trivial, harr, Int.le_refl _⟩)
+  exact ⟨n', _, inc, _, hn', hinv', rfl, fun j _ => rfl, .inl ⟨rfl, rfl, rfl⟩⟩
+
 end PV
